@@ -111,6 +111,19 @@ PROPS["C20"] = {
     "level_note": LEVEL_NOTE_GBN,
 }
 
+PROPS["C18"] = {
+    "pkgs": ["gbn"],
+    "race": True,
+    "level": "exploration",
+    "quick_budget": 70, "thorough_budget": 1800,
+    "rule": "Race-detector build of the instrumented gbn package under the simulator (scheduler hand-offs hidden from the detector, so only the program's own happens-before edges count). conn-concurrent: real connection pair, keepalive/resend periods that are small multiples of the link latency so that ticks and packet arrivals coincide, 1-2 senders + receiver + timeout-setter per endpoint, 1-2 concurrent Close callers per endpoint. ticker-direct and timeoutmgr-direct: the ticker and the timeout manager driven by three tasks with the connection's call patterns. Violations: any race report whose two accessing frames are not both harness code, any task panic, tasks that never finish." + SIG_RULE,
+    "assumptions": ["the race detector decides data races by happens-before, so one interleaving of two unsynchronised accesses suffices; interleavings are needed for the panics and deadlocks", "scheduling points are channel ops, locks, wait groups, atomics, spawns and sleeps; plain memory accesses between them are not interleaved (the detector covers those)"],
+    "components": GBN_COMPONENTS,
+    "expected_probes": [],
+    "level_text": EXPL_TEXT + " Data races are decided by the Go race detector over the explored executions.",
+    "level_note": LEVEL_NOTE_GBN + " Additionally trusts the race detector and the RaceDisable/RaceEnable discipline of simrt (validated: a deliberately racy toy and the pre-fix ticker are reported on every run).",
+}
+
 # Properties that are pure functions of their input: no schedule, clock, fault
 # or interleaving enters them, so deterministic simulation has nothing to decide.
 NOT_APPLICABLE = {
